@@ -229,10 +229,11 @@ package proxy
 //@   ensures[rest-untouched] req.URL == old(req.URL) && req.URL.Path == old(req.URL.Path) && req.URL.RawQuery == old(req.URL.RawQuery) && req.Method == old(req.Method) && req.Host == old(req.Host) && req.Header == old(req.Header) && req.Body == old(req.Body)
 
 //@ contract NewHTTPProxy
-//@   serves C08
+//@   serves C08 C01 C06
 //@   requires[env-logger] logger != nil
 //@   ensures[fields] result != nil && fresh(result) && result.upstreams == upstreams && result.timeout == timeout && result.proxy != nil && fresh(result.proxy)
 //@   ensures[director-only] fnIs(result.proxy.Director, "github.com/andydunstall/piko/server/proxy.NewHTTPProxy$1") && result.proxy.Rewrite == nil && result.proxy.ModifyResponse == nil
+//@   ensures[one-dial-per-request] typeIs(result.proxy.Transport, "*http.Transport") && unbox(result.proxy.Transport, "*http.Transport").DisableKeepAlives && fnIs(unbox(result.proxy.Transport, "*http.Transport").DialContext, "(*github.com/andydunstall/piko/server/proxy.HTTPProxy).dialUpstream") && recvOf(unbox(result.proxy.Transport, "*http.Transport").DialContext, "*HTTPProxy") == result
 //@   ensures[error-handler] fnIs(result.proxy.ErrorHandler, "(*github.com/andydunstall/piko/server/proxy.HTTPProxy).errorHandler") && recvOf(result.proxy.ErrorHandler, "*HTTPProxy") == result
 
 // ---- the byte pipes around a tunnelled TCP connection (C07) -----------------------------
